@@ -14,7 +14,7 @@ import (
 	"github.com/taurusgroup/multi-party-sig/pkg/protocol"
 )
 
-// cloneConfig copies a config by value (Refresh updates the share and table objects it is given in place).
+// cloneConfig copies a config by value.
 func cloneConfig(c *Config) *Config {
 	pts := map[party.ID]curve.Point{}
 	for k, v := range c.VerificationShares.Points {
@@ -25,10 +25,9 @@ func cloneConfig(c *Config) *Config {
 }
 
 func fieldRefresh(in map[party.ID]*Config, ids []party.ID, sid string) map[party.ID]*Config {
-	cfgs := map[party.ID]*Config{}
-	for k, v := range in {
-		cfgs[k] = cloneConfig(v)
-	}
+	// the caller's configuration objects are handed to Refresh as they are: a refresh must not change them (the old
+	// epoch stays what it was, e.g. for a retry when the refresh does not complete everywhere)
+	cfgs := in
 	hs := map[party.ID]protocol.Handler{}
 	for _, id := range ids {
 		h, err := protocol.NewMultiHandler(Refresh(cfgs[id], ids), []byte(sid))
@@ -73,7 +72,15 @@ func H_C08_FrostRefresh() {
 	pk0 := cur[ids[0]].PublicKey
 	history := []map[party.ID]*Config{cur}
 	for e := 1; e <= epochs; e++ {
+		before := map[party.ID]*Config{}
+		for _, id := range ids {
+			before[id] = cloneConfig(cur[id])
+		}
 		next := fieldRefresh(cur, ids, "refresh")
+		for _, id := range ids {
+			vsym.Assert(cur[id].PrivateShare.Equal(before[id].PrivateShare), "refresh leaves the caller's pre-refresh configuration unchanged (secret share)")
+			vsym.Assert(cur[id].PrivateShare.ActOnBase().Equal(cur[id].VerificationShares.Points[id]), "the pre-refresh configuration is still consistent after the refresh")
+		}
 		sk := checkSharing(next, ids, t, "after refresh")
 		vsym.Assert(next[ids[0]].PublicKey.Equal(pk0), "refresh leaves the group public key unchanged")
 		vsym.Assert(sk.Equal(sk0), "refresh leaves the shared secret unchanged")
